@@ -588,7 +588,8 @@ func (ex *Exec) evalBin(e *Expr, env *Env) Val {
 		}
 		return ex.boolV(ts.Or(a, ex.asBool(ex.eval1(e.Args[1], env))))
 	case "==>":
-		a := ex.asBool(ex.eval1(e.Args[0], env))
+		// an antecedent that mentions a local which does not exist on this path cannot hold here
+		a := ex.softAnte(e.Args[0], env)
 		if a.IsFalse() || ex.pcRefutes(a) {
 			return ex.boolV(ts.True())
 		}
@@ -1058,4 +1059,20 @@ func (ex *Exec) loadField(p Val) Val {
 		}
 	}
 	return ex.load(p)
+}
+
+
+func (ex *Exec) softAnte(e *Expr, env *Env) (res *Term) {
+	savedPC := len(ex.st.pc)
+	defer func() {
+		if r := recover(); r != nil {
+			if u, ok := r.(unsupported); ok && strings.Contains(u.msg, "unknown identifier") {
+				ex.st.pc = ex.st.pc[:savedPC]
+				res = ex.ts.False()
+				return
+			}
+			panic(r)
+		}
+	}()
+	return ex.asBool(ex.eval1(e, env))
 }
